@@ -182,8 +182,8 @@ def check_templates(out, v, root, clause):
         live = [c for c in hits if not _in_template(c)]
         # (A repeat inside a group inside a repeat gets a template *and* a plain copy inside the outer template --
         # observed on the unchanged tree, harmless for path resolution and not excluded by the statement -- so the
-        # rule is: exactly one live copy, at least one template copy, all copies of the same shape.)
-        if len(tmpl) < 1 or len(live) != 1:
+        # rule is: exactly one live copy, exactly one copy marked jr:template, all copies of the same shape.)
+        if len(tmpl) != 1 or len(live) != 1:
             out.fail(clause, "count", f"repeat {ns}: {len(hits)} copies, {len(tmpl)} marked jr:template, {len(live)} live")
         elif any(_shape(h) != _shape(live[0]) for h in hits):
             out.fail(clause, "shape", f"repeat {ns}: template and live copy differ in descendants")
